@@ -17,9 +17,20 @@ package evaluate
 //@ ensures (*result).Summary.ClassCount == old((*result).Summary.ClassCount) + len(identifiers)
 //@ ensures (*result).Summary.MethodCount == old((*result).Summary.MethodCount) + MethTot(identifiers, len(identifiers))
 //@ ensures (*result).Summary.StaticMethodCount == old((*result).Summary.StaticMethodCount) + StaticTot(identifiers, len(identifiers))
+//@ ensures (*result).Summary.UtilsCount == old((*result).Summary.UtilsCount)
 //@ loop 1 invariant (*result).Summary.ClassCount == old((*result).Summary.ClassCount) + #i
 //@ loop 1 invariant (*result).Summary.MethodCount == old((*result).Summary.MethodCount) + MethTot(identifiers, #i)
 //@ loop 1 invariant (*result).Summary.StaticMethodCount == old((*result).Summary.StaticMethodCount) + StaticTot(identifiers, #i)
+//@ loop 1 invariant (*result).Summary.UtilsCount == old((*result).Summary.UtilsCount)
 //@ loop 2 invariant (*result).Summary.ClassCount == old((*result).Summary.ClassCount) + #i1 + 1
 //@ loop 2 invariant (*result).Summary.MethodCount == old((*result).Summary.MethodCount) + MethTot(identifiers, #i1) + #i
 //@ loop 2 invariant (*result).Summary.StaticMethodCount == old((*result).Summary.StaticMethodCount) + StaticTot(identifiers, #i1) + StaticIn(ident.Functions, #i)
+//@ loop 2 invariant (*result).Summary.UtilsCount == old((*result).Summary.UtilsCount)
+
+// C18: the number of utility classes is the number of classes whose name says so, whatever else the name says
+//@ spec IsUtilName(s string) bool := Contains(Lower(s), "util")
+//@ spec rec CntUtil(ds []core_domain.CodeDataStruct, n int) int := n <= 0 ? 0 : CntUtil(ds, n - 1) + (IsUtilName(ds[n - 1].NodeName) ? 1 : 0)
+
+//@ method Analyser.Analysis
+//@ ensures result.Summary.UtilsCount == CntUtil(classNodes, len(classNodes))
+//@ loop 1 invariant result.Summary.UtilsCount == CntUtil(classNodes, #i) && nodeMap != nil
